@@ -215,6 +215,19 @@ def _strategy(draw):
         k = draw(st.sampled_from([1.0, 5.0]))
         spec["build"] = ["[ bending ]"] + [f"{a} {b} {c} {k}" for a in resn for b in resn for c in resn]
         spec["bending"] = True
+    first_name, first_count = spec["molecules"][0]
+    mt0 = by_name[first_name]
+    if not spec.get("build") and not spec.get("coords") and mt0.get("shape") == "linear" and len(mt0["residues"]) >= 4 \
+            and draw(st.integers(0, 2)) == 0:
+        # a distance restraint on the molecules of the first [ molecules ] line: the limits on every accepted
+        # position stay what they are (the restrained residues are ordinary neighbours to each other otherwise)
+        n0 = len(mt0["residues"])
+        a = draw(st.integers(0, n0 - 4))
+        b = draw(st.integers(a + 3, n0 - 1))
+        dist = round(0.3 * (b - a) + 0.1, 2)
+        spec["build"] = ["[ molecule ]", f"{first_name} 0 {first_count}", "[ distance_restraints ]",
+                         f"{a} {b} {dist!r} {draw(st.sampled_from([0.3, 0.5]))!r}"]
+        spec["distance_restraint"] = True
     return spec
 
 
@@ -233,6 +246,8 @@ def check(spec, ctx):
         ctx.label("second_neighbour_tree")
     if spec.get("bending"):
         ctx.label("bending_stiffness")
+    if spec.get("distance_restraint"):
+        ctx.label("distance_restraint")
     if spec.get("fill"):
         pass
     elif spec.get("singles"):
